@@ -131,6 +131,79 @@ def compare(delivered, exp):
     return bad
 
 
+def variable_length_records(res, binary, rng, quick):
+    """The model's record is one write command.  Variable-length buckets put SEVERAL records into one interval: requests whose
+    ticks share intervals (one flush = several write commands with the same index for one file) must reach every matching trigger
+    exactly once each, with their own payload."""
+    root = os.path.join(vlib.scratch(), "c32_var")
+    ops = [{"op": "trig_start", "x": {"root": root, "patterns": [pat_str(p) for p in PATTERNS], "loop_wal_ms": 5, "loop_prim_ms": 50}}]
+    keys = [("A", "X"), ("B", "Y")]
+    for b in keys:
+        ops.append({"op": "create", "key": bkey(b) + CK, "names": ["V"], "types": ["i8"], "var": True})
+    npre = len(ops)
+    items = {pat_str(p): [] for p in PATTERNS}
+    nreq = 6 if quick else 40
+    val = 7000
+    for k in range(nreq):
+        b = keys[k % 2]
+        i0 = 20 + 5 * k
+        shape = rng.choice([[0, 0, 1], [0, 0, 0], [0, 1, 1, 1], [0, 0, 1, 1, 2]])      # interval offsets of the ticks, in time order
+        ep, ns, vs = [], [], []
+        for j, d in enumerate(shape):
+            val += 1
+            ep.append(epoch(i0 + d) + 3 * j)
+            ns.append(1000 * (j + 1))
+            vs.append(val)
+            for p in PATTERNS:
+                if (p[0] in ("*", b[0])) and (p[1] in ("*", b[1])):
+                    items[pat_str(p)].append(("%s/%d.bin" % (bkey(b), YEAR), index_of(epoch(i0 + d)), struct.pack("<q", val).hex()))
+        ops.append({"op": "write", "via": "csm", "var": True, "buckets": [{"key": bkey(b), "cols": [
+            {"name": "Epoch", "type": "i8", "vals": ep}, {"name": "V", "type": "i8", "vals": vs}, {"name": "Nanoseconds", "type": "i4", "vals": ns}]}]})
+    # ... and two writers whose requests are flushed as ONE transaction group (the first is held in front of its flush request
+    # until the second has queued its commands): the group carries consecutive write commands for one interval of one file
+    nplay = 3 if quick else 12
+    for g in range(nplay):
+        actors, sched = {}, []
+        for a in range(2):
+            val += 1
+            i = 900 + g
+            actors["v%d" % a] = [{"op": "write", "via": "csm", "var": True, "buckets": [{"key": bkey(keys[0]), "cols": [
+                {"name": "Epoch", "type": "i8", "vals": [epoch(i) + 10 + a]}, {"name": "V", "type": "i8", "vals": [val]},
+                {"name": "Nanoseconds", "type": "i4", "vals": [5000 + a]}]}]}]
+            for p in PATTERNS:
+                if (p[0] in ("*", keys[0][0])) and (p[1] in ("*", keys[0][1])):
+                    items[pat_str(p)].append(("%s/%d.bin" % (bkey(keys[0]), YEAR), index_of(epoch(i)), struct.pack("<q", val).hex()))
+            sched.append({"actor": "v%d" % a, "until": "WriteCSM.beforeFlush", "label": "Enqueue"})
+        sched += [{"actor": "v0", "until": "done", "label": "Flush"}, {"actor": "v1", "until": "done", "label": "Return"}]
+        ops.append({"op": "play", "x": {"actors": actors, "gated": ["WriteCSM.beforeFlush"], "schedule": sched, "timeout_ms": 3000}})
+    ops.append({"op": "trig_state", "x": {"ms": 5000, "expect": sum(len(v) for v in items.values())}})
+    ops.append({"op": "shutdown"})
+    obs = vlib.run_cases(binary, [{"id": "var", "ops": ops}], timeout=300, tag="c32var")
+    shutil.rmtree(root, ignore_errors=True)
+    o = obs.get(json.dumps("var"))
+    replay = {"check": "triggers.variable", "seed": vlib.seed()}
+    if o is None:
+        raise Undecided("no observation for the variable-length trigger scenario")
+    if isinstance(o, dict) and "died" in o:
+        res.violation("the server died while variable-length records were dispatched to triggers: %s" % ((o.get("stderr") or "")[-400:]), replay)
+        return
+    if any(x.get("err") or x.get("panic") for x in o[1:npre + nreq]):
+        raise Undecided("variable-length trigger scenario: a create or write failed: %s" % [x for x in o[1:npre + nreq] if x.get("err") or x.get("panic")][:1])
+    for pl in o[npre + nreq:npre + nreq + nplay]:
+        if pl.get("driver_error") or pl.get("panic") or pl.get("drift"):
+            raise Undecided("variable-length trigger scenario: the two-writer schedule could not be forced: %s" % str(pl)[:300])
+    delivered = o[npre + nreq + nplay].get("delivered") or {}
+    # one write command of a variable-length bucket carries the rows of one interval back to back, each row followed by its 4
+    # interval-tick bytes (here 8 + 4 bytes): one item per row, compared by its row part
+    cut = {pat: [dict(d, payload=d["payload"][k:k + 16]) for d in ds for k in range(0, len(d["payload"]), 24)] for pat, ds in delivered.items()}
+    bad = compare(cut, {k: sorted(v) for k, v in items.items()})
+    if bad:
+        res.violation("variable-length records (several ticks per interval, in one request and in two requests flushed as one transaction group): %s" % "; ".join(bad[:3]), replay)
+    else:
+        res.cov["traces_validated_against_impl"] += 1
+    res.cov["variable_length_records_dispatched"] = len(items[pat_str(("*", "*"))])
+
+
 def run(prop, tier):
     res = Result(prop, tier)
     rng = random.Random(vlib.seed() * 86028121 + 32)
@@ -268,9 +341,10 @@ def run(prop, tier):
         if bad:
             res.violation("free-running concurrent writers: %s" % "; ".join(bad[:3]), {"check": "triggers.stress", "seed": vlib.seed()})
         res.cov["traces_validated_against_impl"] += 1
+    variable_length_records(res, binary, rng, quick)
     for sig, text in races.items():
         if "TriggerPluginDispatcher" in sig or "written.go" in text[:1500]:
             res.violation("data race in the trigger dispatcher: %s\n%s" % (sig, text[:1200]), {"check": "triggers.race", "signature": sig})
     res.assumptions += ["patterns are restricted to <sym|*>/<tf|*>/<ag|*> over one-letter names, where anchored and unanchored regexp matching agree",
-                        "one record = one write command (one bucket, one interval) of a fixed-length bucket"]
+                        "forced schedules: one record = one write command (one bucket, one interval) of a fixed-length bucket; variable-length records (several per interval) in a sequential scenario"]
     return res.finish()
